@@ -4,7 +4,7 @@ from lib import common, gen
 from lib.cases import Rng
 from lib.common import Broken
 
-THEOREMS = ["C19_pad", "C19_short_ignored", "C19_bad_key", "C19_dispatch", "C19_ctr_prefix", "C19_total", "C19_mac_lookup", "C19_mac_address"]
+THEOREMS = ["C19_pad", "C19_short_ignored", "C19_bad_key", "C19_dispatch", "C19_ctr_prefix", "C19_total", "C19_mac_lookup", "C19_mac_address", "C19_aes_fips197", "C19_aes_ctr"]
 
 
 def generate(tier, seed):
@@ -62,11 +62,12 @@ def generate(tier, seed):
         lines.append("m c%d addr=%s macs=%s%s" % (n[0], addr.encode("latin1").hex() or "-", ",".join(bytes(x).hex() or "-" for x in macs),
                                                   " wf=%s" % wf if wf else ""))
     for _ in range(300 if tier == "quick" else 3000):
-        macs = [rng.bytes(6) for _ in range(rng.below(5) + 1)]
+        L = rng.choice([6, 6, 6, 6, 4, 5, 7, 8, 9, 1, 20])     # the property does not restrict the MAC's length
+        macs = [rng.bytes(L) for _ in range(rng.below(5) + 1)]
         if rng.chance(1, 4):
             macs.append(list(macs[0]))                     # duplicate: the first one wins
         pick = rng.below(len(macs) + 1)
-        target = macs[pick] if pick < len(macs) else rng.bytes(6)
+        target = macs[pick] if pick < len(macs) else rng.bytes(L)
         s = ":".join(("%02X" if rng.chance(1, 2) else "%02x") % b for b in target)
         exp = "none"
         for i, mm in enumerate(macs):
@@ -81,7 +82,7 @@ def generate(tier, seed):
 
 
 def run(res, args):
-    res.assumptions = ["AES itself is an oracle: the harness supplies E_k(counter_i) computed with crypto/aes single-block Encrypt for the counter blocks nonce_lo nonce_hi 0^14 (+i, big-endian); the model's CTR asks exactly for those blocks",
+    res.assumptions = ["AES is the Coq model Ble/Aes.v (FIPS-197 Cipher for 128/192/256-bit keys, checked against the standard's example vectors); the harness additionally prints crypto/aes single-block encryptions of the counter blocks nonce_lo nonce_hi 0^14 (+i, big-endian), which are compared with the model block by block",
                        "the handler's effects are read from its log output (plaintext, padded bytes, decoded record) through the add-only hook ble/verif_hooks.go",
                        "for malformed address strings the model mirrors hex.DecodeString's partial result; the judge only requires 'no panic'"]
     common.build_harness()
@@ -109,7 +110,7 @@ def run(res, args):
                         "outcome, plaintext and decoded record compared with the model; the judge checks CTR decryption against the AES oracle, the "
                         "padding shape, the dispatch and the lookup expectation",
                    samples=lines[:: max(1, len(lines) // 5)][:5], disagreements_checked=mism, judge_failures=bad)
-    res.partial.append("AES (crypto/aes) and cipher.NewCTR are trusted library code; the block function is an oracle")
+    res.partial.append("cipher.NewCTR is modelled (ctr_stream), crypto/aes is compared with the FIPS-197 model on the blocks used")
     obs = open(ob).read().splitlines()
     for l in out.splitlines():
         if l.startswith("JUDGE-FAIL"):
